@@ -24,7 +24,7 @@ func (nopLogger) Infof(string, ...interface{})  {}
 func (nopLogger) Errorf(string, ...interface{}) {}
 func (nopLogger) Tracef(string, ...interface{}) {}
 
-var ownPats = []string{"a", "a.b", "a.*", "a.>", ">", "a.b.>", "b", "*", "a.*.c", "b.>", "a.b.c", "*.b"}
+var ownPats = []string{"a", "a.b", "a.*", "a.>", ">", "a.b.>", "b", "*", "a.*.c", "b.>", "a.b.c", "*.b", "a.p$x", "a.p$y", "a.pz", "a.p*"} // a `$` or `*` inside a token is an ordinary character
 
 func genList(r *gen.R, maxn int) []string {
 	switch r.Intn(8) {
